@@ -15,5 +15,42 @@ CLAIMS = {
         note=_NOTE),
 }
 
+CLAIMS.update({
+    "C03": dict(
+        text="Decided for every one of the ~230 sequence/choice tables and 58 registered PDUs of the current source: tables are well-formed for the generic codec, "
+             "LL(1)-deterministic against the decoder's real dispatch (FIRST sets), context numbers unique and ascending, registries complete and numbered as the service-choice enumerations say, "
+             "the generic Sequence/Choice encode and decode agree branch by branch on head-tag class/number and open/close pairing (path-sensitive), trailing data is refused, "
+             "and wire signatures / enumeration numbers have not drifted from the reviewed reference. Octet equality with Annex F and value equality after decode are runtime quantities and are not claimed.",
+        technique="AST table evaluation (schema/LL(1) analysis) + path analysis of the generic interpreter + frozen wire-signature reference",
+        note=_NOTE),
+    "C05": dict(
+        text="Structural necessary conditions of segmented transfer decided on all paths: one stride for counting and slicing, modulo-256 arithmetic on every sequence-number expression, "
+             "flags/window field of each segment (finite-domain evaluation of the stored expressions), in-order guard dominating append_segment with negative ack otherwise, delivery only after the last segment, "
+             "window-bounded bursts, None-typestate of the window size in retransmission handlers, and sequence-number-vs-index kinds. Payload equality under arbitrary fault patterns is not claimed.",
+        technique="path enumeration + guard value-sets + finite-domain expression evaluation + field typestate",
+        note=_NOTE),
+    "C10": dict(
+        text="Reply discipline decided structurally: the two request dispatchers convert every Reject/Abort/Execution/other failure they catch into exactly one reply with the request's context (abstract walk over all paths), "
+             "every confirmed-service handler replies exactly once per normal path (effect summaries), handler names match registered request classes, every error literal is a member of ErrorClass/ErrorCode, "
+             "and deferred calls are isolated from each other. Absence of residue after arbitrary garbage sequences is not claimed.",
+        technique="path enumeration with a small abstract state + effect summaries + registry/enumeration table agreement",
+        note=_NOTE),
+    "C11": dict(
+        text="All nine transaction lookups are shown to match on invoke ID AND peer address (truth-table evaluation of the match condition), each inbound PDU type searches the right list by direction flag and is handed to the found transaction, "
+             "misses are ignored, allocation is modulo 256 over IDs not live toward that peer, registration precedes execution, and duplicate requests are not re-delivered. Wrap-around over histories is not claimed.",
+        technique="guard truth-table evaluation + path enumeration per PDU type",
+        note=_NOTE),
+    "C12": dict(
+        text="Capability decision tables of ClientSSM.indication / ServerSSM.confirmation / idle / await_confirmation are enumerated over all combinations of own and peer segmentation support, max-segments and segment counts and compared with the standard's outcome (send or the matching abort); "
+             "segment size is bounded by every limit it is derived from; peer limits are taken from the request header and I-Am; window negotiation is min(proposed, own). Header allowance and window range checks are known findings. Frame lengths for concrete payloads are not claimed.",
+        technique="finite-domain guard evaluation over path enumeration (decision-table extraction) + dataflow of limit sources",
+        note=_NOTE),
+    "C14": dict(
+        text="Heap ownership (who-may-write), key shape with monotone tie-breaker, isScheduled pairing with push/pop/delete on every path, suspend-before-push on re-install, pop only when when<=now (value-set of the guard), "
+             "re-install only for recurring tasks with positive interval, exact-arithmetic evaluation of the next-slot formula extracted per path, per-call isolation and FIFO/batching shape of the deferred queue. Floating-point results and orderings over generated histories are not claimed.",
+        technique="who-may-write + path pairing rules + guard value-sets + exact rational evaluation of the extracted formula",
+        note=_NOTE),
+})
+
 _PENDING = "check not built yet in this round (static rules are designed in DESIGN.md section 3)"
 NOT_APPLICABLE = {("C%02d" % i): _PENDING for i in range(1, 21)}
